@@ -592,13 +592,6 @@ def correspondence(ctx):
         bump(out, "collection_model", f"{rq.get('entry', rq['impl'] + '.SequenceCollection')}.{rq['op']}")
         if isinstance(real, dict) and isinstance(mod, dict) and {real["err"], mod["err"]} <= {"AlphabetError", "ValueError"}:
             real = mod  # both reject (the concrete exception class of a rejected row is not modelled at collection level)
-        if real != mod and rq["op"] == "get_translation" and rq["impl"] == "old":
-            # repaired tree: the real collection does what the row-wise SPEC says where the as-written model (double trim) does not
-            cs = _code_seqs("old_codes")[rq["code"]]
-            ws = [o_get_translation(cs, r, rq["incomplete_ok"], rq["include_stop"], rq["trim_stop"], strict_length=False) for r in rq["rows"]]
-            if (None in ws and isinstance(real, dict)) or real == ws:
-                bump(out, "impl_matches_spec_but_not_model", "old.SequenceCollection.get_translation")
-                continue
         if real != mod:
             add_failure(out, "corr", f"collection-level {rq['op']} differs from the model", rq, mod, real, confirmed=False)
         elif real not in (None, [], False):
